@@ -23,7 +23,28 @@ void fpApplyH(const json &in, json &out) {
           const bspline::integration::LinearForm lf{E::template make<F>(fs)};
           acc.cmp(lf(a), ratQ(in.at("E").at("lf")), ratQ(in.at("S").at("lf")), "lf");
         }
+        // tiny pass: every coefficient of the operand times 2^-70 (exact in all three types).  Operators are
+        // linear in the spline (Ops!ApplyI commutes with ScaleI), so E and S are simply scaled by the same
+        // power of two; all coefficients are then far below machine epsilon in absolute terms.
+        {
+          Q tiny = 1;
+          F tinyF = 1;
+          for (int i = 0; i < 70; i++) {
+            tiny *= static_cast<Q>(0.5L);
+            tinyF *= static_cast<F>(0.5);
+          }
+          auto cs = a.getCoefficients();
+          for (auto &iv : cs)
+            for (auto &v : iv) v *= tinyF;
+          const Spline<F, o> at(a.getSupport(), std::move(cs));
+          cmpSpline(acc, e * at, in.at("E").at("app"), in.at("S").at("app"), "app (operand * 2^-70)", tiny);
+          if (in.at("E").contains("lf")) {
+            const bspline::integration::LinearForm lf{E::template make<F>(fs)};
+            acc.cmp(lf(at), ratQ(in.at("E").at("lf")) * tiny, ratQ(in.at("S").at("lf")) * tiny, "lf (operand * 2^-70)");
+          }
+        }
         // second pass: full-mantissa coefficients, exact twin as reference (see vh_fp.h)
+#ifndef VH_NO_EXACT_TWIN
         if constexpr (E::exactable) try {
           const Grid<Rat> gr = mkGrid<Rat>(ja.at("g"));
           const Factors<Rat> fsr(in, gr);
@@ -34,6 +55,7 @@ void fpApplyH(const json &in, json &out) {
         } catch (const RatError &) {
           // the exact twin left its 128-bit integers: this case has no perturbed pass
         }
+#endif
       }
     });
   });
@@ -65,6 +87,7 @@ void fpBFH(const json &in, json &out) {
           }
           if (same) return;
           acc.cmp(f(a, b), ratQ(in.at("E")), ratQ(in.at("S")), "bf");
+#ifndef VH_NO_EXACT_TWIN
           if constexpr (E1::exactable && E2::exactable) try {  // second pass, full-mantissa coefficients
             const Grid<Rat> gr = mkGrid<Rat>(ja.at("g"));
             const Factors<Rat> fsr(in, gr);
@@ -76,6 +99,7 @@ void fpBFH(const json &in, json &out) {
             acc.cmp(f(ap, bp), ratToQ(fr(ar, br)), 2 * ratQ(in.at("S")), "pbf");
           } catch (const RatError &) {
           }
+#endif
         }
       });
     });
